@@ -252,6 +252,8 @@ def make_start(cls):
         s.maxerr = 0.0
         s.snap = None
         s.param_gates = []  # indices into s.gates of parametrized gates (exact Circuit only)
+        s.named = {}  # registered named parameters (exact Circuit only) and the expressions driving gate parameters
+        s.named_exprs = {}
         s.tol = 1e-9 if spec["exact"] else 1e-7
         return s
     return start
@@ -408,6 +410,38 @@ def op_gate_raw(s, a):
     note_update(s)
 
 
+def apply_named(s):
+    """gate parameters driven by named-parameter expressions (harness-generated arithmetic over the names)"""
+    for gi, exprs in s.named_exprs.items():
+        rec = s.gates[gi]
+        rec["params"] = [float(eval(e, {"__builtins__": {}}, dict(s.named))) if isinstance(e, str) else float(e) for e in exprs]
+        rec["U"] = controlled(gate_matrix(rec["label"], rec["params"], rec["nq"]), rec["ncontrols"])
+    rebuild_model(s)
+
+
+def op_register_named(s, a):
+    """register_named_params: named circuit parameters + expressions generating the parameters of some parametrized gates
+    (a new registration replaces the previous one; formerly managed gates keep their last values)"""
+    seed, k = a
+    if s.cls != "Circuit" or not s.param_gates:
+        raise Reject("no parametrized gates")
+    rng = np.random.default_rng(seed)
+    names = ["a", "b"][: 1 + k % 2]
+    vals = {n: float(rng.uniform(-math.pi, math.pi)) for n in names}
+    pg = sorted(s.param_gates)
+    managed = [gi for gi in pg if rng.random() < 0.6] or [pg[0]]
+    forms = ["a", "2*a", "-a", "a+0.5"] + (["b", "a+b", "a-2*b"] if "b" in names else [])
+    exprs = {}
+    for gi in managed:
+        exprs[gi] = tuple(forms[int(rng.integers(len(forms)))] if rng.random() < 0.8 else float(rng.uniform(-1, 1))
+                          for _ in range(len(s.gates[gi]["params"])))
+    s.circ.register_named_params(dict(vals), gate_expressions=dict(exprs))
+    s.named, s.named_exprs = vals, exprs
+    apply_named(s)
+    s.ops.add("register_named")
+    note_update(s)
+
+
 def op_set_params(s, a):
     (seed, how) = a
     if s.cls != "Circuit" or not s.param_gates:
@@ -416,17 +450,27 @@ def op_set_params(s, a):
     if not params:
         raise Reject("no params")
     rng = np.random.default_rng(seed)
-    keys = sorted(params)
-    if len(keys) != len(s.param_gates):
-        raise Violation("get-params-count", got=len(keys), want=len(s.param_gates))
+    # documented: named parameters + directly parametrized gates not driven by expressions, keyed by gate number
+    nkeys = sorted(k for k in params if isinstance(k, str))
+    gkeys = sorted(int(k) for k in params if not isinstance(k, str))
+    free = sorted(gi for gi in s.param_gates if gi not in s.named_exprs)
+    if nkeys != sorted(s.named):
+        raise Violation("get-params-names", got=nkeys, want=sorted(s.named))
+    if gkeys != free:
+        raise Violation("get-params-keys", got=gkeys, want=free)
     new = {}
-    # keys are gate numbers / tags in application order
-    for key in keys:
+    for key in nkeys:
+        new[key] = float(rng.uniform(-math.pi, math.pi))
+    for key in gkeys:
         new[key] = np.asarray(rng.uniform(-math.pi, math.pi, size=np.shape(params[key])))
-    if how % 2 == 0:
+    part = (how // 2) % 3  # all keys / only the names / only the gate numbers
+    if part == 1 and nkeys:
+        new = {k: v for k, v in new.items() if isinstance(k, str)}
+    elif part == 2 and gkeys:
+        new = {k: v for k, v in new.items() if not isinstance(k, str)}
+    if how % 2 == 0 or s.named:
         s.circ.set_params(new)
     else:
-        psi = s.circ.psi.copy()
         # update through a network carrying new parameters
         c2 = s.circ.copy()
         c2.set_params(new)
@@ -435,15 +479,15 @@ def op_set_params(s, a):
         #  likewise a lazy SWAP / IDEN has no GATE_i tensor -> KeyError)
         with rejecting(ValueError, KeyError, tag="update_params_from:"):
             s.circ.update_params_from(c2.psi)
-    # model: parameters are listed in gate order
-    if [int(k) for k in keys] != sorted(s.param_gates) and sorted(int(k) for k in keys) != sorted(s.param_gates):
-        raise Violation("get-params-keys", got=[int(k) for k in keys], want=sorted(s.param_gates))
-    for key, gi in zip(sorted(keys), sorted(s.param_gates)):
-        rec = s.gates[gi]
-        rec["params"] = [float(x) for x in np.ravel(new[key])]
-        rec["U"] = controlled(gate_matrix(rec["label"], rec["params"], rec["nq"]), rec["ncontrols"])
-    rebuild_model(s)
-    s.ops.add("set_params")
+    for key, val in new.items():
+        if isinstance(key, str):
+            s.named[key] = float(val)
+        else:
+            rec = s.gates[key]
+            rec["params"] = [float(x) for x in np.ravel(val)]
+            rec["U"] = controlled(gate_matrix(rec["label"], rec["params"], rec["nq"]), rec["ncontrols"])
+    apply_named(s)
+    s.ops.add("set_params" + ("_named" if any(isinstance(k, str) for k in new) else ""))
     note_update(s)
 
 
@@ -468,7 +512,9 @@ def op_param_probe(s, a):
         else:
             q_marginal(s, (picks, 0, 0, 0))
         if rnd == 0:
-            op_set_params(s, (seed, 0))
+            if not s.named and seed % 3 == 0:
+                op_register_named(s, (seed, which))
+            op_set_params(s, (seed, 2 * (seed % 3)))
     s.ops.add("param_probe")
 
 
@@ -621,7 +667,15 @@ def q_marginal(s, a):
     check(s, got.reshape(ref.shape), ref, "compute_marginal", tol=tol, nfix=len(fix), nwhere=k)
 
 
-def q_sample(s, a):
+def q_sample_pair(s, a):
+    """two sampling calls with different qubits / order on the same object, nothing in between"""
+    seed, gs = a
+    if s.cls not in ("Circuit", "CircuitDense"):
+        raise Reject("exact simulators only (the MPS classes have their own sample, without a conditional cache)")
+    q_sample(s, (seed, 0, gs), force_pair=True)
+
+
+def q_sample(s, a, force_pair=False):
     seed, kind, gs = a
     P = np.abs(s.model.psi) ** 2
     kw = {"seed": seed}
@@ -629,8 +683,52 @@ def q_sample(s, a):
     if s.cls in ("Circuit", "CircuitDense"):
         kind = kind % 4
         if kind == 0:
-            gen = s.circ.sample(C, group_size=1 + gs % 3, optimize="greedy", **kw)
-            what = "sample"
+            # which qubits are measured, and in which order the conditionals are taken, are arguments of the question:
+            # answers must not depend on what earlier calls (with other arguments) left in the conditional cache
+            rng = np.random.default_rng(seed)
+            sub = int(rng.integers(3))
+            C = 40
+            skw = dict(group_size=1 + gs % 3, optimize="greedy")
+            qubits = list(range(s.N))
+            if sub:
+                qubits = [int(q) for q in rng.permutation(s.N)[: int(rng.integers(1, s.N + 1))]]
+                skw["qubits"] = qubits
+                if sub == 2:
+                    skw["order"] = [int(q) for q in rng.permutation(qubits)]
+            if int(rng.integers(2)) or force_pair:
+                # an earlier sampling call on the same object with other qubits / order (fills the conditional cache)
+                pq = [int(q) for q in rng.permutation(s.N)[: int(rng.integers(1, s.N + 1))]]
+                po = [int(q) for q in rng.permutation(pq)]
+                unused = [q for q in range(s.N) if q not in qubits]
+                if "order" in skw and len(qubits) >= 2 and unused and int(rng.integers(2)):
+                    # the same measurement chain with one *conditioning* qubit exchanged for another: same groups later in the
+                    # chain, conditioned on a different set
+                    po = [unused[0]] + list(skw["order"][1:])
+                    pq = list(po)
+                list(s.circ.sample(6, qubits=pq, order=po, group_size=skw["group_size"] if pq == po else 1 + int(rng.integers(2)),
+                                   optimize="greedy", seed=seed + 1))
+                s.ops.add("q:sample_twice")
+            out = list(s.circ.sample(C, **skw, **kw))
+            note_query(s)
+            s.ops.add("q:sample" + ("_subset" if sub else ""))
+            fresh = s.circ.copy()
+            fresh.clear_storage()
+            out2 = list(fresh.sample(C, **skw, **kw))
+            if out != out2:
+                raise Violation("sample-depends-on-history", cls=s.cls, subset=bool(sub), order=sub == 2, stale=s.pattern >= 2)
+            # support: marginal distribution over the measured qubits, axes in the order given
+            Pm = np.sum(P, axis=tuple(q for q in range(s.N) if q not in qubits)) if len(qubits) < s.N else P
+            kept = sorted(qubits)
+            Pm = np.transpose(Pm, [kept.index(q) for q in qubits]) if Pm.ndim > 1 else Pm
+            if len(out) != C:
+                raise Violation("sample-count", cls=s.cls, query="sample")
+            for b in out:
+                bits = tuple(int(c) for c in b)
+                if len(bits) != len(qubits):
+                    raise Violation("sample-length", cls=s.cls, query="sample")
+                if Pm[bits] <= 1e-10:
+                    raise Violation("sample-outside-support", cls=s.cls, query="sample", p=float(Pm[bits]), stale=s.pattern >= 2)
+            return
         elif kind == 1:
             if not s.gates:
                 raise Reject("sample_gate_by_gate on an empty circuit (no gate groups) is outside its domain")
@@ -719,6 +817,7 @@ OPS = {
     "gate": (st.tuples(st.integers(0, 5000), SEED, PICKS, st.sampled_from([0, 0, 0, 1, 2]), I, B), op_gate),
     "gate_raw": (st.tuples(SEED, PICKS, I, st.sampled_from([0, 0, 1])), op_gate_raw),
     "set_params": (st.tuples(SEED, I), op_set_params),
+    "register_named": (st.tuples(SEED, I), op_register_named),
     "param_probe": (st.tuples(SEED, I, PICKS, st.lists(I, max_size=5)), op_param_probe),
     "copy": (st.tuples(B), op_copy),
     "check_snapshot": (st.tuples(I), op_check_snapshot),
@@ -728,6 +827,7 @@ OPS = {
     "local_expectation": (st.tuples(PICKS, I, SEED, B), q_local_expectation),
     "marginal": (st.tuples(PICKS, I, I, I), q_marginal),
     "sample": (st.tuples(SEED, I, I), q_sample),
+    "sample_pair": (st.tuples(SEED, I), q_sample_pair),
     "uni": (st.tuples(I), q_uni),
     "fidelity": (st.tuples(I), q_fidelity),
 }
@@ -743,14 +843,18 @@ def make_spec(cls):
     pre = {}
     if cls != "Circuit":
         pre["set_params"] = lambda s: False
+        pre["register_named"] = lambda s: False
         pre["param_probe"] = lambda s: False
     else:
         pre["param_probe"] = lambda s: s.contract is not True
         pre["set_params"] = lambda s: bool(s.param_gates)
+        pre["register_named"] = lambda s: bool(s.param_gates)
     if cls != "Circuit":
         pre["uni"] = lambda s: False
     if cls in ("Circuit", "CircuitDense"):
         pre["fidelity"] = lambda s: False
+    else:
+        pre["sample_pair"] = lambda s: False
     return MachineSpec(init=make_init(cls), start=make_start(cls), ops=OPS, invariant=None, finish=finish,
                        max_steps=(14, 24), preconditions=pre)
 
